@@ -12,6 +12,7 @@ import (
 	"fmt"
 	"go/ast"
 	"go/format"
+	"go/printer"
 	"go/token"
 	"go/types"
 	"os"
@@ -24,12 +25,15 @@ import (
 
 const rtPath = "github.com/metrico/qryn/zz_verif/simrt"
 
-type stats struct{ gos, locks, yields, selects, exits, files int }
+type stats struct{ gos, locks, yields, selects, exits, files, preempts int }
 
 var st stats
 
+var preempt bool
+
 func main() {
 	root := flag.String("root", ".", "module root of the scratch tree")
+	flag.BoolVar(&preempt, "preempt", true, "insert possible preemption points at function entries and loop bodies")
 	flag.Parse()
 	cfg := &packages.Config{
 		Mode: packages.NeedName | packages.NeedFiles | packages.NeedSyntax | packages.NeedTypes | packages.NeedTypesInfo | packages.NeedImports | packages.NeedCompiledGoFiles,
@@ -59,6 +63,7 @@ func main() {
 			if !in.changed {
 				continue
 			}
+			dropBodyComments(f)
 			astutil.AddNamedImport(p.Fset, f, "simrt", rtPath)
 			if in.exits > 0 && !astutil.UsesImport(f, "os") {
 				astutil.DeleteImport(p.Fset, f, "os")
@@ -66,6 +71,9 @@ func main() {
 			var buf bytes.Buffer
 			if err := format.Node(&buf, p.Fset, f); err != nil {
 				fmt.Fprintln(os.Stderr, "format", name, err)
+				var raw bytes.Buffer
+				printer.Fprint(&raw, p.Fset, f)
+				os.WriteFile(name+".instr-failed", raw.Bytes(), 0o644)
 				os.Exit(2)
 			}
 			if err := os.WriteFile(name, buf.Bytes(), 0o644); err != nil {
@@ -75,7 +83,39 @@ func main() {
 			st.files++
 		}
 	}
-	fmt.Printf("instrumented: files=%d go=%d lock-ops=%d yields=%d selects=%d exits=%d\n", st.files, st.gos, st.locks, st.yields, st.selects, st.exits)
+	fmt.Printf("instrumented: files=%d go=%d lock-ops=%d yields=%d selects=%d exits=%d preempts=%d\n", st.files, st.gos, st.locks, st.yields, st.selects, st.exits, st.preempts)
+}
+
+// dropBodyComments removes the comments inside function bodies: inserted statements carry no positions and
+// the printer would otherwise weave a comment into the middle of one. Comments outside bodies (build
+// constraints, //go: directives, documentation) are kept.
+func dropBodyComments(f *ast.File) {
+	type span struct{ lo, hi token.Pos }
+	var bodies []span
+	ast.Inspect(f, func(n ast.Node) bool {
+		switch v := n.(type) {
+		case *ast.FuncDecl:
+			if v.Body != nil {
+				bodies = append(bodies, span{v.Body.Lbrace, v.Body.Rbrace})
+			}
+			return false
+		case *ast.FuncLit:
+			bodies = append(bodies, span{v.Body.Lbrace, v.Body.Rbrace})
+			return false
+		}
+		return true
+	})
+	var keep []*ast.CommentGroup
+outer:
+	for _, cg := range f.Comments {
+		for _, b := range bodies {
+			if cg.Pos() > b.lo && cg.Pos() < b.hi {
+				continue outer
+			}
+		}
+		keep = append(keep, cg)
+	}
+	f.Comments = keep
 }
 
 type instr struct {
@@ -103,6 +143,19 @@ func (in *instr) yieldStmt(n ast.Node) ast.Stmt {
 	return &ast.ExprStmt{X: &ast.CallExpr{Fun: rt("Yield"), Args: []ast.Expr{in.site(n)}}}
 }
 
+// preemptInto puts a possible preemption point at the top of a function or loop body: code between two
+// synchronisation operations is not atomic on a real machine, and the scheduler may pick a few of these
+// visits per run to switch goroutines (simrt.Preempt costs one counter increment otherwise).
+func (in *instr) preemptInto(b *ast.BlockStmt, n ast.Node) {
+	if !preempt || b == nil {
+		return
+	}
+	st.preempts++
+	in.changed = true
+	call := &ast.ExprStmt{X: &ast.CallExpr{Fun: rt("Preempt"), Args: []ast.Expr{in.site(n)}}}
+	b.List = append([]ast.Stmt{call}, b.List...)
+}
+
 func (in *instr) run() {
 	for _, d := range in.file.Decls {
 		fd, ok := d.(*ast.FuncDecl)
@@ -110,6 +163,9 @@ func (in *instr) run() {
 			continue
 		}
 		in.block(fd.Body)
+		if fd.Name.Name != "init" {
+			in.preemptInto(fd.Body, fd)
+		}
 	}
 	// function literals at package level (var x = func(){...})
 	for _, d := range in.file.Decls {
@@ -217,6 +273,7 @@ func (in *instr) funcLits(n ast.Node) {
 	ast.Inspect(n, func(x ast.Node) bool {
 		if fl, ok := x.(*ast.FuncLit); ok {
 			in.block(fl.Body)
+			in.preemptInto(fl.Body, fl)
 			return false
 		}
 		return true
@@ -346,10 +403,14 @@ func (in *instr) stmt(s ast.Stmt) []ast.Stmt {
 			in.rewriteCalls(v.Cond)
 		}
 		in.block(v.Body)
+		in.preemptInto(v.Body, v)
 		return []ast.Stmt{v}
 	case *ast.RangeStmt:
 		in.funcLits(v.X)
 		in.block(v.Body)
+		if !isChan(in.typeOf(v.X)) {
+			in.preemptInto(v.Body, v)
+		}
 		if isChan(in.typeOf(v.X)) {
 			v.Body.List = append([]ast.Stmt{in.yieldStmt(v)}, v.Body.List...)
 			return []ast.Stmt{in.yieldStmt(v), v, in.yieldStmt(v)}
